@@ -55,7 +55,7 @@ def main():
     jobs = []
     for pid in pids:
         for mutant in json.load(open(os.path.join(HERE, 'mutants', pid + '.json'), encoding='utf-8')):
-            if args.only and mutant['id'] != args.only:
+            if args.only and mutant['id'] not in args.only.split(','):
                 continue
             jobs.append((pid, mutant))
     missed = 0
